@@ -25,10 +25,11 @@ func init() {
 		Scenarios: []*Scenario{
 			{Name: "events", Weight: 5, Bubble: true, Run: func(e *Env) { c14Run(e, nil) }},
 			{Name: "watchdog-client", Weight: 1, Bubble: true, Run: func(e *Env) { c13Client(e, true) }},
+			{Name: "sctp-association", Weight: 1, Bubble: true, Run: c14Sctp},
 			{Name: "sweep-events", Bubble: true, Run: c14Sweep, SweepN: c14SweepN, Exhaustive: true,
 				SweepNote: "all sequences of length <= 6 over the 7 event kinds {deliver-message, deliver-byte, cn-handler(next message), cn-task, terminate(kind by case), release-one, unyield-one} x 4 termination kinds, on a 3-message workload with yield sites enabled"},
 		},
-		MustProbes: []string{"cn-while-reader-blocked", "cn-from-handler", "cn-after-termination", "term:peer-eof", "term:rst", "term:undecodable", "term:local-close", "yield-parked", "copier-at-notify", "eof-with-data", "cn-from-error-reporter"},
+		MustProbes: []string{"cn-while-reader-blocked", "cn-from-handler", "cn-after-termination", "term:peer-eof", "term:rst", "term:undecodable", "term:local-close", "yield-parked", "copier-at-notify", "eof-with-data", "cn-from-error-reporter", "sctp-cn-from-handler", "sctp-cn-from-task", "sctp-term:read-error"},
 	})
 }
 
